@@ -350,6 +350,18 @@ example :
   obtain ⟨C, hC, h1, h2, _⟩ := (cov_shape (K := ℚ) ⟨[1, 2, 3, 6, 5, 1], 3, 2⟩ (by decide)).1
   exact ⟨C, hC, h1, h2⟩
 
+/-- the hypotheses of `cov_tensor_eq_matrix` are met by a concrete 3×2 tensor (feature dimension
+    second) and the matrix with the same data -/
+example :
+    ∃ (t : Tensor String ℚ) (m : Matrix ℚ),
+      Tensor.tryFrom [("s", 3), ("f", 2)] [1, 2, 3, 6, 5, 1] = some t ∧ m.Inv ∧
+      (Arith.TView.ofTensor t).WF ∧ (Arith.TView.ofTensor t).shape = [("s", m.rows), ("f", m.columns)] ∧
+      ∀ si fi, (Arith.TView.ofTensor t).get [si, fi] = m.tryGet si fi := by
+  have hv := (Arith.tryFrom_valid (shape := [("s", 3), ("f", 2)])
+    (data := ([1, 2, 3, 6, 5, 1] : List ℚ)) rfl).1
+  exact ⟨_, ⟨[1, 2, 3, 6, 5, 1], 3, 2⟩, rfl, by decide, Arith.ofTensor_WF hv, rfl,
+    (Arith.sameTable_of_same_data hv rfl).get⟩
+
 /-- a list with a tie for the maximum is a valid softmax input (`l ≠ []`, two valid indexes) -/
 example : ([1, 3, 3] : List ℝ) ≠ [] ∧ (1 : Nat) < ([1, 3, 3] : List ℝ).length := by
   constructor <;> simp
